@@ -690,6 +690,29 @@ batches:
 			ok, _ := replayFile(path, true)
 			rf["reproducible"] = ok
 			writeJSONFile(path, rf)
+			// type-level reduction (needs recompilation, hence done here and not in the worker)
+			if ok && nrep <= 2 && os.Getenv("VERIF_NO_TYPE_SHRINK") == "" {
+				budget := 90.0
+				if tier == "thorough" {
+					budget = 240
+				}
+				if red, what := shrinkTypes(f.Case, f.Property, f.Oracle, budget); red != nil {
+					tb, fb := countFields(f.Case.Prog)
+					ta, fa := countFields(red.Prog)
+					rf["case"] = red
+					rf["type_level_reductions"] = what
+					rf["minimised"] = map[string]int{"picks_before": f.PicksBefore, "picks_after": f.PicksAfter, "instances_before": f.InstBefore, "instances_after": len(red.Prog.Instances),
+						"types_before": tb, "types_after": ta, "fields_before": fb, "fields_after": fa}
+					writeJSONFile(path, rf)
+					if ok2, _ := replayFile(path, true); !ok2 {
+						// the reduced case must reproduce in a fresh process, otherwise the unreduced one stays
+						rf["case"] = f.Case
+						delete(rf, "type_level_reductions")
+						rf["minimised"] = map[string]int{"picks_before": f.PicksBefore, "picks_after": f.PicksAfter, "instances_before": f.InstBefore, "instances_after": f.InstAfter}
+						writeJSONFile(path, rf)
+					}
+				}
+			}
 		}
 		fmt.Printf("  %s/%s key=%q: %s\n", f.Property, f.Oracle, f.Key, clip(f.Detail, 600))
 		fmt.Printf("VIOLATION property=%s replay=%s\n", id, path)
